@@ -128,6 +128,7 @@ struct Run {
   bool bCancelIssued = false, bCancelReturnedInBuild = false, buildReturned = false, cancelDone = true;
   uint64_t cancelSeq = 0;
   int cancelledBuilds = 0, cancelsInFlight = 0;
+  std::map<std::string, std::vector<std::pair<std::string, uint64_t>>> earlier;   // path -> (content, mtime) before each edit
   std::map<std::string, int> lastTouch;   // path -> last build in which the stored result behind it (producer's, or the input node's) may have changed
   std::map<std::string, FileState> nodeSeen;   // source / discovered input -> state the last build that reached it found
   // process death during a build (C04 at build-system level)
@@ -551,7 +552,7 @@ void Run::load() {
   traceOn = cfg->getb("trace");
   fifo = cfg->getb("fifo");
   cliDriver = cfg->getb("cli_driver") && (property == "C08" || property == "C09" || property == "C10");
-  cancelOnFailure = cfg->getb("cancel_on_failure") && property == "C10";
+  cancelOnFailure = cfg->getb("cancel_on_failure") && (property == "C10" || property == "C08");
   for (auto& e : cfg->geta("base_env")) baseEnv.push_back(e.s);
   if (const Json* d = plan.find("desc")) desc = Desc::fromJson(*d);
   simfs::fs().mkdirs(kWork);
@@ -655,6 +656,10 @@ void Run::opBuild(const Json& op) {
     if (c->tool != "shell") {
       predictRun[c->name] = false;
       if (c->tool != "phony") exact = false;
+      for (auto& i : c->inputs) {
+        const Cmd* pp = desc.producer(i);
+        if (pp && soft.count(pp->name) && !isVirtualNode(i)) soft.insert(c->name);   // an alias forwards "may re-run"
+      }
       // a phony command with an input nobody produces and that does not exist cannot be built
       for (auto& i : c->inputs)
         if (!isVirtualNode(i) && !isDirNode(i) && !desc.producer(i) && !stateOf(i).exists) predictFail[c->name] = true;
@@ -669,6 +674,8 @@ void Run::opBuild(const Json& op) {
       // The engine compares epochs, not values: a producer whose stored result changed in a build that did not reach this
       // command (and changed back since, which only content-based comparison can show) still re-runs it.  Either is fine.
       if (recs.count(c->name) && lastTouch.count(i) && lastTouch[i] > recs[c->name].sawBuild) soft.insert(c->name);
+      // ... and a producer that may legitimately re-run in this build rewrites the input, so its consumers may re-run as well
+      if (soft.count(p->name) && !isVirtualNode(i)) soft.insert(c->name);
       // a virtual node carries no value: its producer running does not by itself re-run consumers
       if (predictRun[p->name] && !isVirtualNode(i)) {
         // a producer that runs rewrites its outputs: a new timestamp always, new content only sometimes
@@ -1324,9 +1331,25 @@ void Run::execute() {
       std::string p = abs(util::unhex(op.gets("path")));
       simfs::fs().mkdirs(p.substr(0, p.rfind('/')));
       if (isLinkNode(p) || isMkdirNode(p)) simfs::fs().removeAll(p);   // something else takes the link's / directory's place
+      {
+        simfs::StatBuf sb;
+        std::string old;
+        if (simfs::fs().stat(p, true, &sb) == 0 && sb.type == simfs::Inode::File && simfs::fs().readFile(p, &old) == 0) earlier[p].push_back({old, sb.mtime_ns});
+      }
       simfs::fs().writeFile(p, util::unhex(op.gets("content")));
       sourceEdits++;
       ev("edit " + util::printable(p, 60));
+    } else if (kind == "restore") {
+      // the file goes back to exactly what it was before its last edit - content and timestamp (a saved copy moved back)
+      std::string p = abs(util::unhex(op.gets("path")));
+      if (earlier.count(p) && !earlier[p].empty() && stateOf(util::unhex(op.gets("path"))).exists) {
+        auto prev = earlier[p].back();
+        earlier[p].pop_back();
+        simfs::fs().writeFile(p, prev.first);
+        simfs::fs().setMtime(p, prev.second);
+        sourceEdits++;
+        ev("restore " + util::printable(p, 60));
+      }
     } else if (kind == "blockdir") {
       // a directory appears where a command writes its output: the command cannot write it
       std::string p = abs(util::unhex(op.gets("path")));
@@ -1662,7 +1685,8 @@ struct Gen {
   }
 
   // ---- C12: a source tree consumed through a directory-tree / directory-structure node
-  std::set<std::string> treeFiles, treeDirs;
+  std::set<std::string> treeFiles, treeDirs, extFiles;
+  std::string treeLink;   // the symbolic link inside the tree that names ext/, once made
   std::map<std::string, std::vector<std::string>> pastContents;
   int linkCommands = 0, mkdirCommands = 0;
   std::vector<std::string> maybes;   // inputs of allow-missing-inputs commands that come and go
@@ -1688,6 +1712,16 @@ struct Gen {
       treeFiles.insert(f);
       sources[f] = "tree file v" + std::to_string(counter++) + "\n";
     }
+    if (rng.chance(400)) {
+      // a directory outside the tree that a symbolic link inside the tree will name: what lies behind the link is
+      // part of what the node covers
+      int ne = (int)rng.range(1, 3);
+      for (int i = 0; i < ne; i++) {
+        std::string f = "ext/" + pickName(false);
+        extFiles.insert(f);
+        sources[f] = "ext file v" + std::to_string(counter++) + "\n";
+      }
+    }
     Cmd t;
     t.name = "T0";
     t.salt = rng.below(1000);
@@ -1705,6 +1739,25 @@ struct Gen {
     Json op = Json::obj().set("op", "tree");
     std::vector<std::string> fs(treeFiles.begin(), treeFiles.end()), ds(treeDirs.begin(), treeDirs.end());
     unsigned k = (unsigned)rng.below(100);
+    if (!extFiles.empty() && rng.chance(treeLink.empty() ? 400 : 300)) {
+      if (treeLink.empty()) {
+        treeLink = ds[rng.below(ds.size())] + "/" + pickName(true) + "lnk";
+        return op.set("kind", "symlink").set("path", util::hex(treeLink)).set("content", util::hex(std::string(kWork) + "/ext"));
+      }
+      // a change beneath the link's target, which lies outside the tree
+      std::vector<std::string> es(extFiles.begin(), extFiles.end());
+      unsigned e = (unsigned)rng.below(100);
+      if (e < 45) return op.set("kind", "edit").set("path", util::hex(es[rng.below(es.size())])).set("content", util::hex("ext edited v" + std::to_string(counter++) + "\n"));
+      if (e < 60) return op.set("kind", "touch").set("path", util::hex(es[rng.below(es.size())]));
+      if (e < 85 || es.size() < 2) {
+        std::string f = "ext/" + pickName(false) + "e";
+        extFiles.insert(f);
+        return op.set("kind", "add").set("path", util::hex(f)).set("content", util::hex("ext new v" + std::to_string(counter++) + "\n"));
+      }
+      std::string f = es[rng.below(es.size())];
+      extFiles.erase(f);
+      return op.set("kind", "rm").set("path", util::hex(f));
+    }
     if (k < 25 || fs.empty()) {
       std::string f = ds[rng.below(ds.size())] + "/" + pickName(false);
       if (treeDirs.count(f)) f += "x";
@@ -1753,6 +1806,7 @@ struct Gen {
       for (auto it = treeDirs.begin(); it != treeDirs.end();)
         if (*it == d || it->compare(0, d.size() + 1, d + "/") == 0) it = treeDirs.erase(it);
         else ++it;
+      if (treeLink.compare(0, d.size() + 1, d + "/") == 0) treeLink.clear();
       return op.set("kind", "rm").set("path", util::hex(d));
     }
     std::string f = fs[rng.below(fs.size())];
@@ -1767,6 +1821,31 @@ struct Gen {
     if (shells.empty()) return "none";
     size_t pick = shells[rng.below(shells.size())];
     unsigned k = (unsigned)rng.below(15);
+    if (property == "C08" && rng.chance(120)) {
+      // C08 names this pair explicitly: an input becoming a produced node.  A new command starts producing a source file
+      // that other commands consume.
+      std::vector<std::string> cands, others;
+      for (auto& s0 : sources) {
+        const std::string& f = s0.first;
+        if (f.size() < 2 || f.substr(f.size() - 2) != ".c" || desc.producer(f)) continue;
+        bool consumed = false;
+        for (auto& oc : desc.cmds)
+          if (std::find(oc.inputs.begin(), oc.inputs.end(), f) != oc.inputs.end()) consumed = true;
+        (consumed ? cands : others).push_back(f);
+      }
+      if (!cands.empty()) {
+        std::string target = cands[rng.below(cands.size())];
+        Cmd n;
+        n.name = "P" + std::to_string(counter++);
+        n.salt = rng.below(1000);
+        for (auto& o : others)
+          if (n.inputs.size() < 1) n.inputs.push_back(o);
+        n.outputs = {target};
+        desc.cmds.insert(desc.cmds.begin(), n);
+        sources.erase(target);
+        return "source-gets-a-producer";
+      }
+    }
     if (property == "C09" && rng.chance(150)) {
       // C09 names this pair explicitly: a node moving between the input and the output list.  Prefer a command for which
       // nothing but the signature decides (allow-modified-outputs), with two or more inputs.
@@ -1982,6 +2061,47 @@ struct Gen {
         if (rng.chance(300)) addBuild();
         continue;
       }
+      if ((property == "C11" || property == "C08") && roll >= 300 && roll < 380) {
+        // a source and a header it includes change before one build; later the header is put back exactly as it was
+        std::vector<std::pair<std::string, std::string>> pairs;
+        for (auto& s0 : sources) {
+          if (s0.first.size() < 2 || s0.first.substr(s0.first.size() - 2) != ".c") continue;
+          size_t pos = 0;
+          while ((pos = s0.second.find("#include ", pos)) != std::string::npos) {
+            size_t eol = s0.second.find('\n', pos);
+            std::string hname = s0.second.substr(pos + 9, eol - pos - 9);
+            if (sources.count(hname)) pairs.push_back({s0.first, hname});
+            pos = eol;
+          }
+        }
+        if (!pairs.empty()) {
+          auto pr = pairs[rng.below(pairs.size())];
+          std::vector<std::string> inc;
+          size_t pos = 0;
+          const std::string old = sources[pr.first];
+          while ((pos = old.find("#include ", pos)) != std::string::npos) {
+            size_t eol = old.find('\n', pos);
+            inc.push_back(old.substr(pos + 9, eol - pos - 9));
+            pos = eol;
+          }
+          sources[pr.first] = freshContent("edit", inc);
+          hist.push(Json::obj().set("op", "edit").set("path", util::hex(pr.first)).set("content", util::hex(sources[pr.first])));
+          std::vector<std::string> hinc;
+          pos = 0;
+          const std::string hold = sources[pr.second];
+          while ((pos = hold.find("#include ", pos)) != std::string::npos) {
+            size_t eol = hold.find('\n', pos);
+            hinc.push_back(hold.substr(pos + 9, eol - pos - 9));
+            pos = eol;
+          }
+          std::string hnew = freshContent("edit", hinc);
+          hist.push(Json::obj().set("op", "edit").set("path", util::hex(pr.second)).set("content", util::hex(hnew)));
+          addBuild();
+          hist.push(Json::obj().set("op", "restore").set("path", util::hex(pr.second)));   // sources[hdr] is what it was again
+          addBuild();
+          continue;
+        }
+      }
       if (roll < 300) {
         addBuild();
       } else if (roll < 560) {
@@ -2116,7 +2236,7 @@ struct Gen {
         // other commands see an edited source in the failing build (and may complete in it), and the source is edited
         // again on the way to the repair: what they recorded in the failing build must not count as up to date
         std::string touched;
-        if (property == "C10" && rng.chance(500)) {
+        if ((property == "C10" || property == "C08") && rng.chance(500)) {
           std::vector<std::string> cs;
           for (auto& s0 : sources)
             if (s0.first.size() > 2 && s0.first.substr(s0.first.size() - 2) == ".c") cs.push_back(s0.first);
